@@ -800,3 +800,30 @@ add("C15", "revert: dialect extends the sets of a shallow copy of the global coe
     "        **deepcopy(TypeAnnotator.COERCES_TO),", "        **TypeAnnotator.COERCES_TO,", "C15.c")
 add("C15", "benign: element rebound to a new set instead of updated in place", "sqlglot/dialects/bigquery.py",
     "    COERCES_TO[exp.DType.DECIMAL] |= {exp.DType.BIGDECIMAL}", "    COERCES_TO[exp.DType.DECIMAL] = COERCES_TO[exp.DType.DECIMAL] | {exp.DType.BIGDECIMAL}", "silent", 0)
+
+add("C08", "revert: pipe AGGREGATE groups embedded in SELECT and GROUP BY", P,
+    "                *[\n                    projection.args.get(\"alias\", projection).copy()\n                    for projection in aggregates_or_groups\n                ],\n",
+    "                *[projection.args.get(\"alias\", projection) for projection in aggregates_or_groups],\n", "C08.e")
+add("C09", "revert: replace_placeholders adopts the caller's replacement node", "sqlglot/expressions/builders.py",
+    "                    return convert(new_name, copy=True)", "                    return convert(new_name)", "C09.b")
+add("C09", "cast() adopts its operand and may return it as is", "sqlglot/expressions/builders.py",
+    "    expr = maybe_parse(expression, copy=copy, dialect=dialect, **opts)\n    data_type = DataType.build(to, copy=copy, dialect=dialect, **opts)",
+    "    expr = maybe_parse(expression, dialect=dialect, **opts)\n    data_type = DataType.build(to, copy=copy, dialect=dialect, **opts)", "C09.a")
+add("C08", "set() links only the inserted element after shifting the list", CORE,
+    "            else:\n                expressions.insert(index, value)\n\n            value = expressions\n",
+    "            else:\n                expressions.insert(index, value)\n                self._set_parent(arg_key, value, index)\n                return\n\n            value = expressions\n", "C08.i")
+add("C08", "optimizer helper embeds its parameter with copy=False", "sqlglot/optimizer/canonicalize.py",
+    "    node.replace(exp.cast(node.copy(), to=to))", "    node.replace(exp.cast(node.copy(), to=to, copy=False))", "C08.j")
+add("C14", "only the first transform of a preprocess chain is guarded", "sqlglot/transforms.py",
+    "            expression = transforms[0](expression)\n            for transform in transforms[1:]:\n                expression = transform(expression)\n        except UnsupportedError as unsupported_error:\n            self.unsupported(str(unsupported_error))\n",
+    "            expression = transforms[0](expression)\n        except UnsupportedError as unsupported_error:\n            self.unsupported(str(unsupported_error))\n        else:\n            for transform in transforms[1:]:\n                expression = transform(expression)\n", "C14.c")
+add("C05", "routine body loop falls through to the next chunk after reporting the end", "sqlglot/parsers/trino.py",
+    "                    self.raise_error(\"Unexpected end of routine body\")\n                    break\n", "                    self.raise_error(\"Unexpected end of routine body\")\n", "C05.o")
+
+add("C19", "engine tokenizers handed out by a memoised factory", "sqlglot/dialects/athena.py",
+    "            self._hive_tokenizer = Hive().tokenizer()\n            self._trino_tokenizer = _TrinoTokenizer(Trino())\n",
+    "            self._hive_tokenizer, self._trino_tokenizer = _engine_tokenizers()\n", "C19.h",
+    extra=[("sqlglot/dialects/athena.py", "\nclass Athena(Dialect):", "\nimport functools\n\n\n@functools.lru_cache(maxsize=None)\ndef _engine_tokenizers():\n    return Hive().tokenizer(), _TrinoTokenizer(Trino())\n\n\nclass Athena(Dialect):")])
+add("C19", "parser raises and restores the interpreter recursion limit around a parse", P,
+    "        return self._parse_batch_statements(parse_method=parse_method, sep_first_statement=False)\n",
+    "        import sys\n\n        limit = sys.getrecursionlimit()\n        sys.setrecursionlimit(max(limit, 10000))\n        try:\n            return self._parse_batch_statements(parse_method=parse_method, sep_first_statement=False)\n        finally:\n            sys.setrecursionlimit(limit)\n", "C19.g")
